@@ -435,9 +435,11 @@ SELFTEST_KINDS = {"C05": ["drop_to_response", "missing_out"], "C06": ["until_plu
                   "C18": ["pay_altered", "to_altered"], "C20": ["until_plus_one", "now_shifted"]}
 
 
-def corrupt_line(kind, lines):
-    """first line of an ACCEPTED trace to which corruption `kind` applies -> (index, corrupted copy) or None"""
+def corrupt_line(kind, lines, start=0):
+    """first line (from `start`) of an ACCEPTED trace to which corruption `kind` applies -> (index, corrupted copy) or None"""
     for i, ln in enumerate(lines):
+        if i < start:
+            continue
         ret = ln.get("ret") or {}
         c = json.loads(json.dumps(ln))
         if kind == "until_plus_one" and ln["ev"] == "poll" and ret.get("k") == "wait" and ln["out"]:
@@ -478,6 +480,26 @@ def binding_selftest(pid, flat, transport, wd, us_mode):
             done.append({"kind": kind, "applied": False})
             continue
         i, c = hit
+        if kind == "now_shifted":
+            # a retransmission logged 1 ms late shows only if the same transaction is polled again before it completes:
+            # take the first such retransmission (one that is followed, in its history, by a wait for an instant that this
+            # very retransmission determines - the wake-up is exactly one of its intervals later)
+            start = 0
+            while hit is not None:
+                i, c = hit
+                j, seen = i + 1, False
+                while j < len(flat) and flat[j]["ev"] != "reset" and not seen:
+                    r = flat[j].get("ret") or {}
+                    seen = flat[j]["ev"] == "poll" and r.get("k") == "wait" and len(flat[j]["out"]) == 1 and flat[j]["out"][0][0] == flat[i]["ret"].get("tid") \
+                        and r.get("until", -1) > flat[i]["now"] and flat[j]["now"] >= flat[i]["now"]
+                    j += 1
+                if seen:
+                    break
+                start = i + 1
+                hit = corrupt_line(kind, flat, start)
+            if hit is None:
+                done.append({"kind": kind, "applied": False})
+                continue
         # (the history that contains the line, to its end: a shifted instant shows at a later poll)
         j = i + 1
         while j < len(flat) and flat[j]["ev"] != "reset":
